@@ -104,7 +104,7 @@ def run_cases(ctx, cases, official_compile=True, check_spec=True, check_model=Tr
                 if ic != mc:
                     ctx.tie_break("compile", {"text": c["text"], "impl": ic, "model": mc})
         # --- expected compile outcome by the reference semantics: a generated sentence must compile
-        if check_spec and prog is not None and c.get("expect_compile", True) and im["compile"] != "ok":
+        if check_spec and (prog is not None or c.get("must_compile")) and c.get("expect_compile", True) and im["compile"] != "ok":
             ctx.violation(f"grammatical experiment does not compile ({im['compile']}): {c['text'][:200]}",
                           {"text": c["text"], "impl_compile": im["compile"]}, key=c.get("key"))
         for i, env in enumerate(c["envs"]):
